@@ -652,6 +652,39 @@ def check(ctx: Ctx) -> list[RuleResult]:
         else:
             r6.ok({"decoder": f.short, "divisors": sorted(ks) + (["<parameter>"] if unknown_k else []), "quotient_carried_by": sorted(tainted)})
     out.append(r6)
+
+    # ---- R7 ---------------------------------------------------------------------------
+    # hex text is a sequence of 2-character bytes: looking for a byte pattern with str.partition/split/find/replace/strip or `in`
+    # also matches across a byte boundary ("50" "00" contains "00" at offset 1 - and at offset 2), so the cut can land inside a byte
+    r7 = RuleResult("R7", "decoders treat hex text byte-wise", "no unaligned search for a byte pattern in the hex text of a decoder", min_instances=1)
+    SEARCH = {"partition", "rpartition", "split", "rsplit", "find", "rfind", "index", "rindex", "replace", "strip", "rstrip", "lstrip", "count"}
+    decs = [f for f in repo.functions_in(f"{H}.") if f.name.startswith("hex_to_")]
+    if len(decs) < 8:
+        raise AnalysisError(f"only {len(decs)} hex_to_* decoders found")
+    for f in decs:
+        params = {a.arg for a in f.node.args.args}
+        r7.instances += 1
+        r7.nontrivial += 1
+        hits = []
+        for n in own_nodes(f.node):
+            base = pat = None
+            if isinstance(n, ast.Call) and isinstance(n.func, ast.Attribute) and n.func.attr in SEARCH and n.args and isinstance(n.args[0], ast.Constant) and isinstance(n.args[0].value, str):
+                base, pat = n.func.value, n.args[0].value
+            elif isinstance(n, ast.Compare) and len(n.ops) == 1 and isinstance(n.ops[0], (ast.In, ast.NotIn)) and isinstance(n.left, ast.Constant) and isinstance(n.left.value, str):
+                base, pat = n.comparators[0], n.left.value
+            if base is None or pat is None or len(pat) < 2 or not re.fullmatch(r"[0-9A-Fa-f]+", pat):
+                continue
+            root = base
+            while isinstance(root, ast.Subscript):
+                root = root.value
+            if isinstance(root, ast.Name) and root.id in params:
+                hits.append(n)
+        if hits:
+            for n in hits:
+                r7.fail(f"{f.short}:unaligned-search", f.loc(n), f"`{norm(n)[:70]}` in {f.short} searches the hex text for a byte pattern without regard to byte alignment: the match can straddle two bytes (e.g. '50'+'00' matches '00' at offset 1), so some values on the grid are cut mid-byte and no longer decode")
+        else:
+            r7.ok({"decoder": f.short, "unaligned_pattern_searches": 0})
+    out.append(r7)
     return out
 
 
